@@ -195,6 +195,8 @@ class Model:
         for f in ("mon_core.h", "atlas_fw.h", "cms_fw.h", "atlas_driver.cxx", "cms_driver.cxx"):
             shutil.copy(CORE / f, self.inc / f)
         self._w("TTree.h", '#pragma once\n#include "mon_core.h"\n')
+        self._w("TVector2.h", '#pragma once\n#include <cmath>\nstruct TVector2 { static double Phi_mpi_pi(double x) { if (std::isnan(x)) return x; '
+                              'while (x >= M_PI) x -= 2 * M_PI; while (x < -M_PI) x += 2 * M_PI; return x; } };\n')
         if self.backend == "atlas":
             self._w("AnaAlgorithm/AnaAlgorithm.h", '#pragma once\n#include "atlas_fw.h"\n')
             self._w("xAODRootAccess/tools/TFileAccessTracer.h", '#pragma once\n#include "atlas_fw.h"\n')
